@@ -375,7 +375,7 @@ def rule_helpers(chk):
     cases = []
     for start, wstart in ((0, 'D_START_IDX = 0'), (5, 'D_START_IDX = 5'), ('n0', 'D_START_IDX = self.fluid.n0[0]')):
         for stop, real, wstop in ((None, True, 'NP_DEST = self.fluid.size(real=True)'), (None, False, 'NP_DEST = self.fluid.size(real=False)'),
-                                  (7, True, 'NP_DEST = 7'), ('n1', False, 'NP_DEST = self.fluid.n1[0]')):
+                                  (7, True, 'NP_DEST = 7'), (0, True, 'NP_DEST = 0'), ('n1', False, 'NP_DEST = self.fluid.n1[0]')):
             cases.append((start, stop, real, wstart, wstop))
     bad = []
     try:
